@@ -11,6 +11,8 @@ import IocProofs.Lemmas.MatchExamples
 import IocProofs.Lemmas.SemDiscover
 import IocProofs.Lemmas.SemMeta
 import IocProofs.Lemmas.SemTypeId
+import IocProofs.Lemmas.SemArgs
+import IocProofs.Lemmas.SemUnmarshall
 namespace Ioc.C07
 open Ioc Ioc.Tag Ioc.Match
 
@@ -175,5 +177,18 @@ theorem C07_code_TypeId (ts : List Sem.TyD) (typeOf : Nat → Nat) (join : Strin
     Go.run (Sem.tiPrims ts typeOf join) Progs.reflectx_Id [.nil] () = some (.str "<nil>", ()) ∧
     Go.run (Sem.tiPrims ts typeOf join) Progs.reflectx_Id [.ref c 0] () = some (.str (Sem.typeIdOf ts join (typeOf c)), ()) :=
   ⟨Sem.typeId_sem ts typeOf join t, (Sem.id_sem ts typeOf join c).1, (Sem.id_sem ts typeOf join c).2⟩
+
+/-- TagArg.Parse (regenerated, `C19_code_Parse`) returns the value part of a tag text EXACTLY as the splitter delivers it and
+    hands every argument to Set as written — nothing is trimmed, lower-cased or dropped on the way: the requested name is the name as written, blanks included, as the registered names are -/
+theorem C07_code_tag_text_as_written (o : Sem.StrOps) (tag : String) (w : Sem.SetLog) :
+    Go.run (Sem.parsePrims o) Progs.arg_Parse [.str tag] w =
+      some (.str (o.splitC tag).1, w ++ (o.splitC tag).2.map (Sem.parseArg o)) :=
+  Sem.argParse_sem o tag w
+
+/-- a by-name point is required unless its `required` argument holds the value "false" (IsRequired, regenerated,
+    `C09_code_IsRequired`): the bare flag `,required` and any other spelling leave it required, so an absent name fails -/
+theorem C07_code_IsRequired (has : Sem.AM → String → List String → Bool) (fmtKey : String → String) (w : Sem.PW) :
+    Go.run (Sem.pmPrims has fmtKey) Progs.prop_IsRequired [] w = some (.bool (!(has w.args "required" ["false"])), w) :=
+  Sem.isRequired_sem has fmtKey w
 
 end Ioc.C07
